@@ -135,7 +135,14 @@ def gen_case(rng, maxops, stats=None):
             elif q < .6 and v: v = v[:-1]
             elif q < .7: v = small()
             ops.append(rng.choice('ke') + hx(v))
-        elif r < .84: ops.append('l')
+        elif r < .825:
+            o = rng.choice('ACPRMKE')
+            if o in 'CP' and len(s) > 120:
+                o = 'A'
+            ops.append(o)
+            if o in 'CP': s = s + s
+            elif o == 'R': s = []
+        elif r < .85: ops.append('l')
         elif r < .87: ops.append('s')
         elif r < .90: ops.append('h')
         else:
@@ -254,6 +261,11 @@ CORPUS = [
     '616263|z10 l s c6465 s z2 s z2 z0 l',   # grow keeps the string, shrink cuts
     '616263|f3:S646566 s f1:L58,D-42,S79 s f0:D0 f9:L7a s l',
     '6162|a6162 e6162 k6162 k61 k616261 k6163 c p s h',
+    '61626364|C s l',                        # concat(s, s): strcat on overlapping buffers gave 9 characters for "abcd"
+    '616263|P s C l h',                      # append(s, s), twice
+    '61626364|A s l',                        # assign(s, s): strcpy read the block realloc had just released
+    '616263|z9 A s c64 s',                   # assign(s, s) shrinking a larger allocation
+    '616263|M K E R s l R C A s',            # the String itself as needle / comparand; rem(s, s) empties it
 ]
 
 
